@@ -35,6 +35,20 @@ def table_entries(mod, name):
             if any(isinstance(a, (ast.FunctionDef, ast.ClassDef)) for a in _anc(n)):
                 continue
             out.append((const_value(n.targets[0].slice), norm(n.value), n))
+        if isinstance(n, ast.Call) and isinstance(n.func, ast.Attribute) and isinstance(n.func.value, ast.Name) and n.func.value.id == name \
+                and n.func.attr in ("update", "setdefault") and not any(isinstance(a, (ast.FunctionDef, ast.ClassDef)) for a in _anc(n)):
+            if n.func.attr == "setdefault" and len(n.args) == 2:
+                out.append((const_value(n.args[0]), norm(n.args[1]), n))
+            elif n.func.attr == "update":
+                for k in n.keywords:
+                    if k.arg is None:
+                        raise AnalysisError("%s.update(**...) cannot be read as a table" % name)
+                    out.append((k.arg, norm(k.value), n))
+                for a in n.args:
+                    if not isinstance(a, ast.Dict):
+                        raise AnalysisError("%s.update(<non-literal>) cannot be read as a table" % name)
+                    for k, v in zip(a.keys, a.values):
+                        out.append((const_value(k), norm(v), n))
     return out
 
 
@@ -333,12 +347,20 @@ def rule_passthrough(ctx):
             before.append(st)
         if guard is None:
             raise AnalysisError("%s: no is_compression_format guard" % fname)
-        neg = isinstance(guard.test, ast.UnaryOp) and isinstance(guard.test.op, ast.Not)
-        arm = guard.body if neg else guard.orelse
-        ok = len(arm) == 2 and isinstance(arm[0], ast.Expr) and isinstance(arm[0].value, ast.Yield) \
-            and norm(arm[0].value.value) == p0 and isinstance(arm[1], ast.Return) and arm[1].value is None
-        if not neg and not guard.orelse:
-            ok = False
+        from ..flow import arms, ends_in_jump
+        cond = norm(calls_in(guard.test, "is_compression_format")[0])
+        ab = arms(guard, cond, f.body)
+        if ab is None:
+            raise AnalysisError("%s: the guard is not a plain test of is_compression_format" % fname)
+        arm = list(ab[1])
+        if guard.orelse and not ends_in_jump(arm):
+            # an if/else: what follows the statement belongs to both arms
+            arm = arm + list(f.body[f.body.index(guard) + 1:])
+        ok = len(arm) in (1, 2) and isinstance(arm[0], ast.Expr) and isinstance(arm[0].value, ast.Yield) \
+            and arm[0].value.value is not None and norm(arm[0].value.value) == p0 \
+            and (len(arm) == 1 or (isinstance(arm[1], ast.Return) and arm[1].value is None))
+        if len(arm) == 1 and not guard.orelse:
+            ok = False          # guard clause without return: falls through into the compression arm
         effects = [c for st in before for c in calls_in(st) if is_effect_on(c, set(f.all_params)) or
                    (dotted(c.func) or "").split(".")[-1] in ("NamedTemporaryFile", "mkstemp", "mkdtemp", "TemporaryDirectory")]
         ctx.ob("%s.passthrough" % fname, ok and not effects,
@@ -517,9 +539,10 @@ def rule_writer(ctx):
             w = parent(c)
             inner_ok = False
             wst = parent(w) if isinstance(w, ast.withitem) else None
-            if isinstance(wst, ast.With):
-                inner_ok = any((dotted(c2.func) or "").split(".")[-1] in comp_names and any(k.arg == "fileobj" for k in c2.keywords)
-                               for s2 in wst.body for c2 in calls_in(s2))
+            if isinstance(wst, ast.With) and isinstance(w.optional_vars, ast.Name):
+                raw = w.optional_vars.id
+                inner_ok = any((dotted(c2.func) or "").split(".")[-1] in comp_names and any(k.arg == "fileobj" and norm(k.value) == raw for k in c2.keywords)
+                               for c2 in calls_in(wst))
             if inner_ok:
                 continue
         others.append(norm(c)[:70])
